@@ -64,6 +64,26 @@ func fieldByTag(v reflect.Value, tag string) reflect.Value {
 	panic("no field tagged " + tag)
 }
 
+func hasField(v reflect.Value, tag string) bool {
+	t := v.Type()
+	for i := 0; i < t.NumField(); i++ {
+		if t.Field(i).Tag.Get("ovsdb") == tag {
+			return true
+		}
+	}
+	return false
+}
+
+// Scalars is a model of table D without the set and the map column: a Go struct that is comparable with ==
+// (strings, an int, a pointer), which must still be compared by value.
+type Scalars struct {
+	UUID string  `ovsdb:"_uuid" json:"_uuid"`
+	S    string  `ovsdb:"s" json:"s"`
+	I    int     `ovsdb:"i" json:"i"`
+	OS   *string `ovsdb:"os" json:"os"`
+	Mark string  `ovsdb:"mark" json:"mark"`
+}
+
 func runtimeType() reflect.Type {
 	f := func(name, tag string, t reflect.Type) reflect.StructField {
 		return reflect.StructField{Name: name, Type: t, Tag: reflect.StructTag(fmt.Sprintf(`ovsdb:"%s" json:"%s"`, tag, tag))}
@@ -85,6 +105,8 @@ func newFamily(name string, schema ovsdb.DatabaseSchema) (*family, error) {
 		typ = reflect.TypeOf(HW{})
 	case "generated":
 		typ = reflect.TypeOf(genmodel.D{})
+	case "scalars":
+		typ = reflect.TypeOf(Scalars{})
 	default:
 		return nil, fmt.Errorf("unknown family %s", name)
 	}
@@ -108,8 +130,10 @@ func (f *family) newModel() model.Model {
 	fieldByTag(e, "i").SetInt(7)
 	p := "p"
 	fieldByTag(e, "os").Set(reflect.ValueOf(&p))
-	fieldByTag(e, "ss").Set(reflect.ValueOf([]string{"a", "b"}))
-	fieldByTag(e, "mss").Set(reflect.ValueOf(map[string]string{"k": "v"}))
+	if hasField(e, "ss") {
+		fieldByTag(e, "ss").Set(reflect.ValueOf([]string{"a", "b"}))
+		fieldByTag(e, "mss").Set(reflect.ValueOf(map[string]string{"k": "v"}))
+	}
 	return m.Interface()
 }
 
@@ -124,6 +148,9 @@ func values(m model.Model) map[string]interface{} {
 		out["os"] = []interface{}{}
 	} else {
 		out["os"] = []interface{}{p.Elem().String()}
+	}
+	if !hasField(e, "ss") {
+		return out
 	}
 	ss := []interface{}{}
 	for i := 0; i < fieldByTag(e, "ss").Len(); i++ {
@@ -208,7 +235,7 @@ func NewEnv(schemaFile string) (*Env, error) {
 		return nil, err
 	}
 	e := &Env{schema: s, families: map[string]*family{}, dir: dir}
-	for _, n := range []string{"runtime", "handwritten", "generated"} {
+	for _, n := range []string{"runtime", "handwritten", "generated", "scalars"} {
 		f, err := newFamily(n, s)
 		if err != nil {
 			return nil, fmt.Errorf("family %s: %v", n, err)
@@ -583,8 +610,10 @@ func (e *Env) RunLaw(c LawCase) (map[string]interface{}, error) {
 			if c.Shape == "emptyAlloc" {
 				// empty, but allocated: a map without entries, a slice without elements but with room, a pointer to ""
 				e := m.Elem()
-				fieldByTag(e, "ss").Set(reflect.ValueOf(make([]string, 0, 4)))
-				fieldByTag(e, "mss").Set(reflect.ValueOf(map[string]string{}))
+				if hasField(e, "ss") {
+					fieldByTag(e, "ss").Set(reflect.ValueOf(make([]string, 0, 4)))
+					fieldByTag(e, "mss").Set(reflect.ValueOf(map[string]string{}))
+				}
 				z := ""
 				fieldByTag(e, "os").Set(reflect.ValueOf(&z))
 			}
@@ -606,10 +635,12 @@ func (e *Env) RunLaw(c LawCase) (map[string]interface{}, error) {
 		// shows only then)
 		clAfter := values(cl)
 		oe := reflect.ValueOf(m).Elem()
-		ss := fieldByTag(oe, "ss")
-		ss.Set(reflect.Append(ss, reflect.ValueOf("written-to-the-original")))
-		if mm := fieldByTag(oe, "mss"); !mm.IsNil() {
-			mm.SetMapIndex(reflect.ValueOf("orig-key"), reflect.ValueOf("orig-value"))
+		if hasField(oe, "ss") {
+			ss := fieldByTag(oe, "ss")
+			ss.Set(reflect.Append(ss, reflect.ValueOf("written-to-the-original")))
+			if mm := fieldByTag(oe, "mss"); !mm.IsNil() {
+				mm.SetMapIndex(reflect.ValueOf("orig-key"), reflect.ValueOf("orig-value"))
+			}
 		}
 		if p := fieldByTag(oe, "os"); !p.IsNil() {
 			p.Elem().SetString("written-to-the-original")
